@@ -196,7 +196,8 @@ func (r *Run) Cases(base, n, par int, fn func(c *Case, rng *Rng)) {
 					c.journal, _ = os.OpenFile(filepath.Join(r.OutDir, "case-journal.txt"), os.O_CREATE|os.O_APPEND|os.O_WRONLY, 0o644)
 				}
 				r.journalLine(fmt.Sprintf("start %d", idx))
-				rng := NewRng(r.Seed*1000003 + uint64(idx))
+				// two rounds of mixing: the streams of neighbouring cases must not be shifted copies of each other
+				rng := NewRng(NewRng(r.Seed*1000003+uint64(idx)).U64() ^ 0xD1B54A32D192ED03)
 				done := make(chan struct{})
 				go func() {
 					defer close(done)
